@@ -351,6 +351,17 @@ func (i *interpreter) symBinop(op token.Token, x, y value) value {
 				}
 			}
 		}
+		// two symbolic operands whose bits cannot overlap: one is below 2^k, the other a multiple of 2^k
+		// (the varint decoding idiom  acc |= uint64(b&0x7F) << shift)
+		for _, pr := range [][2]*Term{{a, b}, {b, a}} {
+			lowT, highT := pr[0], pr[1]
+			if lo, hi, ok := tc.rangeOf(lowT, 0); ok && lo.Sign() >= 0 {
+				// (in two's complement a negative multiple of 2^k also has k zero low bits)
+				if tz := termTZ(highT, 0); tz > 0 && hi.BitLen() <= tz {
+					return tc.mkInt(tc.wrap(tc.Add(a, b), k), k)
+				}
+			}
+		}
 		if b.IsConst() {
 			// x | (2^n-1) == x - x mod 2^n + (2^n-1)  (two's complement, floor mod)
 			if n, ok := isPow2Minus1(b.c); ok {
@@ -684,4 +695,63 @@ func (i *interpreter) strFromElems(e []value) value {
 	st.kind = "bytes"
 	st.bytes = append([]value{}, e...)
 	return st
+}
+
+// termTZ: a lower bound on the number of trailing zero bits of an integer term (0 = unknown).
+func termTZ(t *Term, depth int) int {
+	if depth > 8 {
+		return 0
+	}
+	switch t.op {
+	case "const":
+		if t.c.Sign() == 0 {
+			return 1 << 20
+		}
+		return int(new(big.Int).Abs(t.c).TrailingZeroBits())
+	case "*":
+		n := 0
+		for _, a := range t.args {
+			n += termTZ(a, depth+1)
+		}
+		return n
+	case "+", "-":
+		n := -1
+		for _, a := range t.args {
+			if k := termTZ(a, depth+1); n < 0 || k < n {
+				n = k
+			}
+		}
+		if n < 0 {
+			return 0
+		}
+		return n
+	case "mod":
+		// (x mod 2^n) keeps the trailing zeros of x up to n
+		if t.args[1].IsConst() {
+			if n, ok := isPow2(t.args[1].c); ok {
+				if k := termTZ(t.args[0], depth+1); k < int(n) {
+					return k
+				}
+				return int(n)
+			}
+		}
+	case "ite":
+		a, b := termTZ(t.args[1], depth+1), termTZ(t.args[2], depth+1)
+		if a < b {
+			return a
+		}
+		return b
+	}
+	return 0
+}
+
+func isPow2(c *big.Int) (uint, bool) {
+	if c.Sign() <= 0 {
+		return 0, false
+	}
+	n := c.TrailingZeroBits()
+	if new(big.Int).Rsh(c, n).Cmp(bigOne) == 0 {
+		return n, true
+	}
+	return 0, false
 }
